@@ -314,6 +314,20 @@ class Gen:
             return ("varin", self.var(in_for), self.gint(d - 1, in_for, nid), self.gint(d - 1, in_for, nid))
         if not self.allow_for:
             return self.gbool(d - 1, in_for, nid)
+        if c == 15 and self.nvars >= 2:
+            # nested string-set loops: the outer body uses the anonymous string after an inner loop that may
+            # exit early (the selected string must be restored)
+            vs_o = sorted(set(r.below(self.nvars) for _ in range(r.range(1, self.nvars))))
+            vs_i = sorted(set(r.below(self.nvars) for _ in range(r.range(1, self.nvars))))
+            ko, seo = self.gsel(0, in_for, nid, len(vs_o), True)
+            ki, sei = self.gsel(0, True, nid, len(vs_i), True)
+            inner = r.choice([("of", ki, sei, vs_i), ("for", ki, sei, vs_i, self.gbool(0, True, nid)),
+                              ("un", "not", ("of", ki, sei, vs_i))])
+            after = r.choice([("var", None), ("bin", "gt", ("count", None), ("int", r.choice([0, 1, 2]))),
+                              ("varat", None, self.small()),
+                              ("bin", "eq", ("length", None, ("int", 1)), ("int", r.choice([1, 2, 3]))),
+                              ("bin", "lt", ("offset", None, ("int", 1)), ("int", r.choice([1, 3, 8])))])
+            return ("for", ko, seo, vs_o, (r.choice(["and", "or"]), [inner, after]))
         if c <= 16:
             vs = sorted(set(r.below(self.nvars) for _ in range(r.range(1, self.nvars + 1))))
             k, se = self.gsel(d - 1, in_for, nid, len(vs), True)
